@@ -112,7 +112,20 @@ pub fn observe(_ctx: &Ctx, st: &mut Stats, job: &Job) {
 
 pub fn run(ctx: &Ctx) -> Report {
     let jobs = jobs(ctx);
-    let st = pool::run(&jobs, ctx.remaining(), |st, job, _| observe(ctx, st, job));
+    let st = pool::run(&jobs, ctx.remaining(), |st, job, i| {
+        observe(ctx, st, job);
+        // every fifth job is followed, on the same thread, by a sibling: same payload, one option changed
+        if i % 5 == 0 {
+            if let Some(sib) = job.sibling(&ctx.caps) {
+                let before = st.violations.len();
+                observe(ctx, st, &sib);
+                st.count("sibling_builds_same_payload_other_option", 1);
+                for v in &mut st.violations[before..] {
+                    v.detail = format!("{} (sibling run: same payload as the job before it on this thread, one option changed; the fault may depend on that history)", v.detail);
+                }
+            }
+        }
+    });
     let mut rep = Report::new(
         st,
         "jobs = all 40 sizes x 4 levels x payloads (capacity-filling + random; thorough: x 8 mask slots), mask rotating over forced 0..7 and automatic; to_str() is split into lines, every character mapped to a (top, bottom) pair (space = dark/dark, U+2588 = light/light, U+2580 = light/dark, U+2584 = dark/light) and the resulting grid compared cell by cell with a one-module light border around the module values; crafted byte payloads make the data area of the final symbol uniformly dark / light / striped (24 targets x versions, with the matching forced mask); jobs are executed in shuffled order and every second job first renders (and checks) a symbol of an unrelated size on the same thread, so each rendering happens after bigger and after smaller ones; distinct key = (options, len, payload hash); every case non-trivial",
